@@ -321,9 +321,13 @@ def run_case(ctx, case, rng, seedbase):
                 # nothing moves although writers are alive: look whether every reader is idling too
                 snap = [(ch, ch.idle) for ch in chans]
                 pair.wait_for(lambda: all(ch.idle >= i0 + 40 or not ch.threads[2].is_alive() for ch, i0 in snap), 30, 0.005)
-                if p.link.quiescent(2.0) and any(t.is_alive() for t in writers):
-                    stalled = True
-                    break
+                alive_w = [t for t in writers if t.is_alive()]
+                if alive_w and p.link.quiescent(2.0):
+                    # only a writer that is provably parked (unchanged stack over the margin, link drained) counts
+                    ok, _st = cm.blocked_at_quiescence(alive_w, p.link, 3.0)
+                    if ok:
+                        stalled = True
+                        break
         p.link.set_latency(0)
         if stalled:
             # a stalled transfer is C20's subject; here only what *was* delivered is judged: it must be a prefix
